@@ -279,6 +279,18 @@ def gen_site(tape, nhosts=1, npages=6, with_requisites=True, with_redirects=True
                 bd = dirs[tape.draw(len(dirs), 'site.base_href.dir')]
                 p.base_href = bd.path
                 p.links.append((bd, bd.path))
+    if with_redirects and tape.chance(1, 15, 'site.many_redirects'):
+        # more redirects on one host than the per-host connection limit (6), with empty bodies (Content-Length: 0)
+        for i in range(tape.between(7, 9, 'site.many_redirects.n')):
+            rr = site.add(main, '/mr%d' % i, 'redirect')
+            same = [p for p in pages if p.origin.key() == main.key()]
+            rr.redirect_to = same[tape.draw(len(same), 'site.mredir.dst')]
+            rr.redirect_code = tape.choice((301, 302, 303, 307, 308), 'site.mredir.code')
+            rr.redirect_spelling = spell(tape, rr, rr.redirect_to)
+            rr.body = b''
+            rr.content_type = 'text/plain'
+            redirects.append(rr)
+            pages[0].links.append((rr, spell(tape, pages[0], rr)))
     # links
     everything = pages + redirects
     for p in pages:
